@@ -445,7 +445,11 @@ def _sector_rank_bound(theta):
         rows[q] = rows.get(q, 0) + 1
     for q in map(tuple, c):
         cols[q] = cols.get(q, 0) + 1
-    return sum(min(n, cols.get(q, 0)) for q, n in rows.items())
+    # (a charge sector without any stored block contributes no singular values at all -- not even zeros)
+    stored = set()
+    for qi in np.asarray(theta._qdata)[:, 0].tolist():
+        stored.add(tuple(gen.mod_valid(l0.qconj * np.asarray(l0.charges)[int(qi)][None, :], mod)[0].tolist()))
+    return sum(min(n, cols.get(q, 0)) for q, n in rows.items() if q in stored)
 
 
 def _near_cut_tie(sv, opts):
@@ -493,13 +497,23 @@ def case_eigh_rho(ctx, i):
     tr = np.trace(rho_d).real
     if tr < 1e-12:
         return
-    rho = npc.Array.from_ndarray(rho_d, [l0, l0.conj()], labels=['p', 'p*'], cutoff=0.)
+    # UPLO: only one triangle of the Hermitian matrix is read ('L' by default); the other one may hold anything
+    uplo = str(rng.choice(['L', 'L', 'U']))
+    stored = rho_d
+    if rng.random() < 0.6:
+        junk = rng.standard_normal(rho_d.shape) * 3.0
+        mask_c = gen.charge_mask([gen.leg_qflat(l0), gen.leg_qflat(l0.conj())], [l0.qconj, -l0.qconj], np.zeros(chinfo.qnumber, dtype=np.int64),
+                                 [int(m) for m in chinfo.mod]) if chinfo.qnumber else np.ones(rho_d.shape, bool)
+        other_tri = np.triu(np.ones(rho_d.shape, bool), 1) if uplo == 'L' else np.tril(np.ones(rho_d.shape, bool), -1)
+        stored = np.where(other_tri & mask_c, junk.astype(rho_d.dtype), rho_d)
+        ctx.count('eigh_rho.only_one_triangle_valid')
+    rho = npc.Array.from_ndarray(stored, [l0, l0.conj()], labels=['p', 'p*'], cutoff=0.)
     n = rho_d.shape[0]
     opts = _trunc_opts_for(rng, n)
-    case = {'part': 'eigh_rho', 'n': n, 'leg_kind': k0, 'dtype': dtype, 'options': opts, 'mod': [int(m) for m in chinfo.mod]}
+    case = {'part': 'eigh_rho', 'n': n, 'leg_kind': k0, 'dtype': dtype, 'options': opts, 'mod': [int(m) for m in chinfo.mod], 'UPLO': uplo}
     o, okind = _as_options(rng, opts)
     try:
-        W, V, err = eigh_rho(rho, o)
+        W, V, err = eigh_rho(rho, o, UPLO=uplo) if (uplo != 'L' or rng.random() < 0.5) else eigh_rho(rho, o)
     except Exception as e:
         import traceback
         ctx.violation('eigh_rho:raises-%s' % type(e).__name__, traceback.format_exc()[-800:], case)
